@@ -86,6 +86,10 @@ def run_case(sub, case, tier, scratch):
     return fail, ctx
 
 
+class _StopShard(BaseException):
+    """A shard gives up after repeated hangs: every one of them is a violation already, and going on could take hours."""
+
+
 class _Found(Exception):
     def __init__(self, case):
         Exception.__init__(self, "found")
@@ -170,6 +174,11 @@ def run_task(args):
                 if len(txt) < len(b["case"]):
                     b["case"] = txt
                     b["detail"] = fail.detail
+            if "/no-progress" in fail.bucket:
+                res["hangs"] = res.get("hangs", 0) + 1
+                if res["hangs"] >= 2:
+                    res["labels"]["shard-stopped-after-two-hangs"] += 1
+                    raise _StopShard()
 
     try:
         if sub.enumerate is not None:
@@ -196,6 +205,8 @@ def run_task(args):
                 res["shrunk"] = codec.dumps(f.case)
     except _Found as f:
         res["shrunk"] = codec.dumps(f.case)
+    except _StopShard:
+        pass
     except BaseException as e:  # harness error
         res["error"] = "".join(traceback.format_exception(type(e), e, e.__traceback__))[-4000:]
     finally:
